@@ -477,3 +477,98 @@ func calleeName(call *ssa.Call) string {
 	}
 	return call.Call.Value.Name()
 }
+
+func init() {
+	core.Register(&core.Rule{
+		Name: "R-NOSKIP",
+		Doc: "After a rejected candidate the scan resumes at the very next byte. In the candidate finders of package prefilter (the implementations of Prefilter.Find/FindMatch) a loop that re-slices the haystack by an accumulated offset and searches the rest again must advance that offset by exactly (position of the rejected candidate in the window) + 1: over the linear domain, the back-edge value of the offset minus its previous value minus the candidate position is the constant 1. Resuming behind the fingerprint, behind the literal or at any other computed distance steps over a literal that starts inside the skipped bytes (a nibble-mask false positive at p followed by a real occurrence at p+1), and because these prefilters report themselves complete nothing re-checks the gap. Necessary for C16 (Find returns the smallest position at or after the offset; a candidate loop can never step over the start of a real match).",
+		Min: 4, NeedSSA: true,
+		Run: func(p *core.Prog) *core.RuleResult {
+			res := &core.RuleResult{}
+			subjects, errs := candidateFinders(p)
+			if errs != "" {
+				res.Fatal = append(res.Fatal, errs)
+				return res
+			}
+			for _, fn := range subjects {
+				if ownPkg(fn) == nil || !strings.HasSuffix(ownPkg(fn).Path(), "/prefilter") {
+					continue
+				}
+				var hay *ssa.Parameter
+				for _, prm := range fn.Params {
+					if isByteSlice(prm.Type()) && hay == nil {
+						hay = prm
+					}
+				}
+				if hay == nil {
+					continue
+				}
+				kc := core.NewKeyCounter()
+				// accumulated offsets: integer phis used as the low bound of a window
+				offs := map[*ssa.Phi]bool{}
+				for _, b := range fn.Blocks {
+					for _, in := range b.Instrs {
+						if sl, ok := in.(*ssa.Slice); ok && sl.Low != nil && isByteSeq(sl.X.Type()) {
+							if ph, ok := stripConv(sl.Low).(*ssa.Phi); ok {
+								offs[ph] = true
+							}
+						}
+					}
+				}
+				var phis []*ssa.Phi
+				for ph := range offs {
+					phis = append(phis, ph)
+				}
+				sort.Slice(phis, func(i, j int) bool { return phis[i].Pos() < phis[j].Pos() })
+				for _, ph := range phis {
+					for i, e := range ph.Edges {
+						pred := ph.Block().Preds[i]
+						if !(ph.Block() == pred || ph.Block().Dominates(pred)) {
+							continue // entry edge
+						}
+						c := &rebaseCtx{p: p, fn: fn, hay: hay, atoms: map[string]ssa.Value{}, aenv: map[string]phiEnv{}, adep: map[string]int{}}
+						l := c.lin(e, phiEnv{}, 0)
+						self := "v:" + ph.Name() + "@" + fmt.Sprint(ph.Pos())
+						step := l.Plus(asm.Sym(self), -1)
+						o := core.Obligation{Key: kc.Key("R-NOSKIP", core.FuncName(fn), "rescan starts one byte after the rejected candidate"), Pos: p.Pos(e.Pos()), Nontrivial: true}
+						// expected: exactly one position symbol (the candidate, itself loop-carried) with coefficient 1, constant 1
+						var others []string
+						cands := 0
+						for _, s := range step.Symbols() {
+							k := step.Coef(s)
+							if k == 1 && (strings.HasPrefix(s, "pos:") || strings.HasPrefix(s, "v:")) && cands == 0 && s != self {
+								cands++
+								continue
+							}
+							others = append(others, fmt.Sprintf("%+d*%s", k, s))
+						}
+						k0 := step.Plus(asm.Const(0), 0)
+						konst := int64(0)
+						{
+							tmp := k0
+							for _, s := range tmp.Symbols() {
+								tmp = tmp.Plus(asm.Sym(s), -tmp.Coef(s))
+							}
+							if len(tmp.Symbols()) == 0 {
+								// constant part
+								konst = constOf(tmp)
+							}
+						}
+						switch {
+						case cands == 1 && len(others) == 0 && konst == 1:
+							o.Status = core.Discharged
+							o.Detail = "offset' = offset + candidate + 1"
+						default:
+							o.Status = core.Violated
+							o.Detail = fmt.Sprintf("the accumulated offset advances by (%s): not by the candidate's position plus exactly 1, so bytes after a rejected candidate are never searched as the start of a literal", step.String())
+						}
+						res.Obligations = append(res.Obligations, o)
+					}
+				}
+			}
+			return res
+		},
+	})
+}
+
+func constOf(l asm.Lin) int64 { return l.ConstPart() }
